@@ -396,4 +396,7 @@ def vfstate_header():
     D = []
     for i, (p, t) in enumerate(VF_ALL):
         D.append("            body += std::string(%s\"\\\"%s\\\":\") + qvm::show(w->m_%s);" % ("" if i == 0 else "\",\" ", p, p))
+    # members of the inherited QWidget::font (targets of grouped bindings)
+    for m in ("bold", "italic", "pointSize", "family"):
+        D.append("            body += std::string(\",\\\"font.%s\\\":\") + qvm::show(w->m_font.m_%s);" % (m, m))
     return VFSTATE_H.replace("@VF_FIELDS@", "\n".join(L)).replace("@VF_DUMP@", "\n".join(D))
